@@ -13,7 +13,9 @@ import (
 	"bytes"
 	"fmt"
 	"io"
+	"os"
 	"runtime/debug"
+	"runtime/metrics"
 	"strings"
 
 	"github.com/Comcast/gots/v2/ebp"
@@ -70,7 +72,15 @@ func totE(err error) {
 // tot wraps an entry: f gets a private exact-capacity copy of the input and the optional integer;
 // it returns false when it observed a read-only operation modifying a caller buffer.
 func tot(name string, f func(b []byte, n int) bool) {
-	register("tot."+name, func(a []Val) (r Val) {
+	g := totFunc(name, f)
+	register("tot."+name, g)
+	// the same group under a name the model executor does not have: long inputs (hundreds of packets), judged from the
+	// real observation alone (bin/gen/c05.py REAL_ONLY_OPS; the extracted stream models are too slow at that size)
+	register("cost."+name, g)
+}
+
+func totFunc(name string, f func(b []byte, n int) bool) func(a []Val) Val {
+	return func(a []Val) (r Val) {
 		in := make([]byte, len(a[0].B))
 		copy(in, a[0].B)
 		n := 0
@@ -83,12 +93,55 @@ func tot(name string, f func(b []byte, n int) bool) {
 			}
 		}()
 		totErr = false
+		a0 := allocatedBytes()
 		ok := f(in, n)
+		cost := allocatedBytes() - a0
+		if costLog != nil {
+			fmt.Fprintf(costLog, "%s %d %d\n", name, len(in), cost)
+		}
+		if limit := costLimit(len(in)); cost > limit {
+			return VL(VI(7), VB([]byte(fmt.Sprintf("tot.%s allocated %d bytes for an input of %d bytes (limit %d = %d + %d x input)",
+				name, cost, len(in), limit, costBase, costPerByte))))
+		}
 		return VL(VI(0), VBool(ok), VBool(totErr))
-	})
+	}
 }
 
 func totSame(a, b []byte) bool { return bytes.Equal(a, b) }
+
+// ---- "memory bounded by a small multiple of the input size" ----
+// The bytes allocated while the group runs (cumulative allocation, runtime/metrics /gc/heap/allocs:bytes: garbage
+// counts, so repeated copying of a growing buffer shows although the live heap stays small) must stay below
+// costBase + costPerByte x len(input).  The constants are several times the largest ratio observed on the
+// unchanged library (thorough tier, inputs up to 1128 bytes: at most 0.33 MB per call; streams of 300 / 1000 / 3000
+// packets: at most 5.5 bytes per input byte); what the harness itself allocates inside a group is linear in the
+// input as well.  Reply [7 x<description>] when exceeded (bin/check: "resource bound exceeded").
+const (
+	costBase    = 2 << 20
+	costPerByte = 32
+)
+
+func costLimit(n int) uint64 { return costBase + costPerByte*uint64(n) }
+
+var costSample = []metrics.Sample{{Name: "/gc/heap/allocs:bytes"}}
+
+func allocatedBytes() uint64 {
+	metrics.Read(costSample)
+	if costSample[0].Value.Kind() != metrics.KindUint64 {
+		return 0
+	}
+	return costSample[0].Value.Uint64()
+}
+
+// development aid: VERIF_COST_LOG=<file> appends "<group> <input length> <allocated bytes>" per call
+var costLog = func() io.Writer {
+	if p := os.Getenv("VERIF_COST_LOG"); p != "" {
+		if f, err := os.OpenFile(p, os.O_APPEND|os.O_CREATE|os.O_WRONLY, 0644); err == nil {
+			return f
+		}
+	}
+	return nil
+}()
 
 // ---- argument shapes derived from the input (mirrored one by one in Exec/TotExec.v) ----
 
@@ -729,8 +782,12 @@ func init() {
 			p := totPkt(b[i : i+188])
 			q := *p
 			a.WritePacket(p)
-			a.Bytes()
-			a.Packets()
+			if i < 32*188 || i+376 > len(b) {
+				// Bytes() / Packets() hand out independent copies of everything accumulated: on long streams they are
+				// called for the first packets and the last one only, so that the group's own cost stays linear
+				a.Bytes()
+				a.Packets()
+			}
 			if *p != q {
 				ok = false
 			}
